@@ -70,6 +70,23 @@ def html_to_nodes(
     text: str, line_number: int, renderer: DocutilsRenderer
 ) -> list[nodes.Element]:
     """Convert HTML to docutils nodes."""
+    try:
+        return _html_to_nodes(text, line_number, renderer)
+    except RecursionError:
+        # copying and rendering the parsed HTML recurse once per nesting level
+        msg_node = renderer.create_warning(
+            "HTML could not be parsed: nested too deeply",
+            MystWarnings.HTML_PARSE,
+            line=line_number,
+        )
+        return ([msg_node] if msg_node else []) + default_html(
+            text, renderer.document["source"], line_number
+        )
+
+
+def _html_to_nodes(
+    text: str, line_number: int, renderer: DocutilsRenderer
+) -> list[nodes.Element]:
     if renderer.md_config.gfm_only:
         text, _ = RE_FLOW.subn(lambda s: s.group(0).replace("<", "&lt;"), text)
 
